@@ -2,4 +2,4 @@ import NetVerif.Driver.SendWinStep
 /-! Driver for C09: trace monitor for the client's outbound flow control (same monitor as C08). -/
 open NetVerif.Driver NetVerif.Driver.SendWin
 
-def main : IO Unit := runLoop step NetVerif.Model.SendWin.Mon.init
+def main : IO Unit := runLoop step none
